@@ -22,7 +22,7 @@ for c in "$@"; do
   results="$results {\"check\": \"$c\", \"violation_reported\": $rc, \"tail\": $(python3 -c 'import json,sys; print(json.dumps(sys.argv[1][-600:]))' "$out")},"
   echo "--- $c with seed $name applied:"; echo "$out"
   cp /verif/replays/${c}_quick_${VERIF_SEED:-3}.json $tmp/replay_$c.json 2>/dev/null
-  cp /verif/evidence/$c.json $tmp/evidence_seeded_$c.json 2>/dev/null
+  cp /verif/replays/evidence_other_tree/$c.json $tmp/evidence_seeded_$c.json 2>/dev/null
   [ -f $tmp/evidence_$c.json ] && cp $tmp/evidence_$c.json /verif/evidence/$c.json
 done
 git -C /repo worktree remove --force $wt
